@@ -323,7 +323,7 @@ def check_agg(ctx):
 
             if "capa" in target.qualname.lower():
                 for f in ctx.P.functions.values():
-                    if f.cls is None and len(f.params) == 3 and "alpha" in f.params[1] and "beta" in f.params[2] and f.module is target.module:
+                    if __import__("skverif.rules.c03", fromlist=["is_penaliser"]).is_penaliser(f) and f.module is target.module:
                         summ[f.qualname] = _pen_summary
             ex, paths = generic_driver_run(ctx, target, summ)
             rets = returns(paths)
